@@ -35,20 +35,28 @@ Qed.
 Print Assumptions C17_race_free.
 
 (* 2. Under any schedule no goroutine is ever about to block (channel send / receive / select, a
-      wait, or acquiring a mutex — in particular re-acquiring mux) while it holds a mutex, and a
-      mutex is held by at most one goroutine.  Hence a goroutine holding mux can always take its
-      next step: there is no hold-and-wait, so no deadlock through mux. *)
+      wait, or acquiring a mutex — in particular re-acquiring mux) while it holds a mutex; a mutex
+      is held by at most one goroutine; a goroutine that holds a mutex can take its next step right
+      now (no hold-and-wait: a mutex is never held by a goroutine that cannot move); and a goroutine
+      that has finished holds nothing.  So there is no deadlock through mux.  (That every Lock is
+      then eventually granted needs, beyond this, a fair scheduler and terminating critical
+      sections — not proved.) *)
 Theorem C17_lock_regions_nonblocking :
   forall s, reach fswallet_prog (init_state fswallet_main) s ->
     ~ blocks_holding s /\
     (forall t1 t2 th1 th2 m, t1 <> t2 -> threads s t1 = Some th1 -> threads s t2 = Some th2 ->
-       mem m (t_held th1) = true -> mem m (t_held th2) = false).
+       mem m (t_held th1) = true -> mem m (t_held th2) = false) /\
+    (forall t th, threads s t = Some th -> t_held th <> [] ->
+       exists c s', step fswallet_prog s t c s') /\
+    (forall t th, threads s t = Some th -> t_stack th = [] -> t_held th = []).
 Proof.
   intros s Hr.
   assert (Hnb : nonblocking_ok fswallet_prog fuel fswallet_main = true) by (vm_compute; reflexivity).
-  split.
+  split; [|split; [|split]].
   - exact (nonblocking_sound _ _ _ Hnb s Hr).
   - exact (mutex_exclusive _ _ _ (or_introl Hnb) s Hr).
+  - exact (lock_holder_progress _ _ _ Hnb s Hr).
+  - exact (finished_holds_nothing _ _ _ (or_introl Hnb) s Hr).
 Qed.
 Print Assumptions C17_lock_regions_nonblocking.
 
